@@ -162,7 +162,8 @@ def cases(tier, seed):
                                 'params': {'cls': cname, 'base_value': bv, 'context': ctx, 'slice': 'page'},
                                 'budget': 90.0 if tier == 'quick' else 300.0, 'path_timeout': 30.0,
                                 'twin': n == 1})
-                    if tier == 'thorough' and (bn in ('str', 'bytes') or ctx == 'top'):
+                    if tier == 'thorough' and ((bn in ('str', 'bytes') and ctx in ('top', 'dval', 'dkey') and flavour in ('Plain', 'Repr'))
+                                               or (ctx == 'top' and flavour == 'Plain')):
                         out.append({'name': '%s:%s:%s|ribbon' % (cname, bv[:20], ctx), 'family': 'subclass',
                                     'params': {'cls': cname, 'base_value': bv, 'context': ctx, 'slice': 'ribbon'},
                                     'budget': 300.0, 'path_timeout': 30.0})
